@@ -100,6 +100,14 @@ structure St (Ty : Type) where
 
 abbrev Res (Ty α : Type) := Except Err α × St Ty
 
+/-- projections used to state examples with decidable equalities -/
+def okOf {α : Type} : Except Err α → Option α
+  | .ok a => some a
+  | .error _ => none
+def errOf {α : Type} : Except Err α → Option Err
+  | .ok _ => none
+  | .error e => some e
+
 section
 variable {Ty Tpl : Type} [DecidableEq Ty] (env : Env Ty Tpl)
 
